@@ -14,3 +14,77 @@ package playback
 //@   domain timeScale >= 1
 //@   domain inI64(tdiv(v*1000000000, timeScale))
 //@   ensures result == tdiv(v*1000000000, timeScale)
+
+// C28: no-crash sweep of the playback code that reads recording files. No functional annotation: every index,
+// slice bound, division, type assertion and make() size in these functions is an obligation, with the file
+// contents (everything the readers and the MP4 library return) unconstrained.
+
+//@ func segmentFMP4ReadHeader
+//@   property C28
+//@   safety -ovf
+//@   ensures [init-returned-on-success] result2 == nil ==> result0 != nil
+
+//@ func segmentFMP4ReadDurationFromParts
+//@   property C28
+//@   safety -ovf, nil
+//@   requires r != nil && init != nil
+//@   assert-call durationMp4ToGo: timeScale >= 1
+
+//@ func segmentFMP4MuxParts
+//@   property C28
+//@   safety -ovf, nil
+//@   requires r != nil && m != nil
+//@   assert-call durationGoToMp4: true
+//@   assert-call durationMp4ToGo: timeScale >= 1
+
+//@ func segmentFMP4CanBeConcatenated
+//@   property C28
+//@   safety -ovf, nil
+//@   domain prevInit != nil && curInit != nil
+//@   ensures [same-kind-of-segments] result ==> (mtxiOf(prevInit.UserData) != nil) == (mtxiOf(curInit.UserData) != nil)
+
+//@ func segmentFMP4TracksAreEqual
+//@   property C28
+//@   safety -ovf
+
+//@ func findInitTrack
+//@   property C28
+//@   safety -ovf
+
+//@ func findMtxi
+//@   property C28
+//@   safety -ovf
+//@   assumed-ensures [function-of-the-box-list] result == mtxiOf(userData)
+
+//@ func parseSegment
+//@   property C28
+//@   safety -ovf
+
+//@ func concatenateSegments
+//@   property C28
+//@   safety -ovf
+//@   loop 1 invariant 0 <= _i && _i <= len(parsed) && (_i >= 1 ==> len(out) >= 1)
+//@   ensures [non-empty-in-non-empty-out] len(parsed) >= 1 ==> len(result) >= 1
+
+//@ func parseSegments
+//@   property C28
+//@   safety -ovf
+//@   ensures [one-slot-per-segment] len(result0) == len(segments)
+
+//@ func parseAndConcatenate
+//@   property C28
+//@   safety -ovf
+//@   ensures [non-empty-in-non-empty-out] len(segments) >= 1 && result1 == nil ==> len(result0) >= 1
+
+//@ func seekAndMux
+//@   property C28
+//@   safety -ovf
+//@   requires len(segments) >= 1 && m != nil
+
+//@ func (s *Server) onGet
+//@   property C28
+//@   safety -ovf
+
+//@ func (s *Server) onList
+//@   property C28
+//@   safety -ovf
